@@ -94,6 +94,9 @@ def rerun(a):
         if not os.path.exists(mp):
             continue
         meta = json.load(open(mp))
+        if meta.get('superseded'):
+            print(i, '(superseded, skipped)')
+            continue
         props = sorted(set([meta['property']] + list(meta.get('checks', {}).keys())))
         print(i)
         meta['checks'] = evaluate(os.path.join(base, i, 'patch.diff'), props, a.tier, a.seed)
